@@ -740,8 +740,8 @@ def rule_r5(chk, db, tier):
     chk.stats["panic_sites_reviewed_table"] = n_tab
     chk.stats["panic_sites_reviewed_with_checked_lemma"] = n_lem
     chk.stats["panic_sites_matched_by_fingerprint_only"] = n_fp
-    chk.floor("R5", len(sites), 90, "explicit panic constructs on the request path")
-    chk.floor("R5.discharged", n_dis, 62, "panic constructs discharged by a proof rule")
+    chk.floor("R5", len(sites), 40, "explicit panic constructs on the request path")   # a floor against vacuity, not a quota: removing panic constructs is welcome
+    chk.floor("R5.discharged", n_dis, 20, "panic constructs discharged by a proof rule")
     stale = sorted(set(table) - {s["key"] for s in sites}) if not n_fp else []
     if stale:
         chk.advisory("%d entries of oracles/panic_sites.json no longer match a site (e.g. %s)" % (len(stale), stale[:2]))
